@@ -190,6 +190,16 @@ def run_check(pid, tier, replay=None):
                     broken.append({'kind': 'theorem', 'name': '%s (%s:%d)' % (d['name'], f, d['line']),
                                    'detail': d['errors'][:2]})
 
+    rechecks = []
+    if tier == 'thorough' and info['build_ok'] and not broken:
+        for f in prop.lean_files:
+            rc = common.leanchecker_file(f)
+            rechecks.append(rc)
+            obligations.append({'file': f, 'name': 'leanchecker ' + rc.get('module', f), 'kind': 'recheck',
+                                'ok': rc['ok'], 'axioms': None})
+            if not rc['ok']:
+                broken.append({'kind': 'leanchecker', 'name': 'leanchecker ' + f, 'detail': rc['detail']})
+
     # 3. correspondence + oracle on the implementation ----------------------------------------
     ctx = Ctx(pid, tier, seed, model_available, bool(info.get('untranslatable')))
     prop.run(ctx)
@@ -277,6 +287,7 @@ def run_check(pid, tier, replay=None):
             'replays': replay_paths,
             'notes': ctx.notes[:20],
             'lean_wall_s': lean_wall,
+            'leanchecker': rechecks,
             'build_s': info.get('build_s'),
         },
         'assumptions': list(getattr(prop, 'assumptions', [])),
